@@ -13,5 +13,6 @@ INVARIANT LinesInside
 INVARIANT LinesNested
 INVARIANT HitsRestOnLines
 INVARIANT GapsAvoidNotes
+INVARIANT CodedSepsAreGapsWhenThin
 CONSTRAINT EmitScn
 CHECK_DEADLOCK FALSE
